@@ -132,8 +132,7 @@ theorem akeys_aupsert_nodup (f : V → V) (emp : V) (k : K) (l : List (K × V))
 
 /-- With distinct keys, a key-selecting `flatMap` is a lookup. -/
 theorem flatMap_select {β : Type} (l : List (K × V)) (hn : (akeys l).Nodup) (k : K) (g : V → List β) :
-    l.flatMap (fun e => if e.1 = k then g e.2 else []) =
-      (match alookup k l with | some v => g v | none => []) := by
+    l.flatMap (fun e => if e.1 = k then g e.2 else []) = ((alookup k l).map g).getD [] := by
   induction l with
   | nil => simp
   | cons a l ih =>
